@@ -288,6 +288,15 @@ func universes(thorough bool) []*universe {
 	r2.Preload = []preSvc{{0, 0, []string{"10.0.0.0"}, "a"}, {1, 1, []string{"10.0.0.1"}, "a"}, {2, 0, nil, ""}}
 	us = append(us, r2)
 
+	// a PreferDualStack service recorded with one family in a pool that has both, and a service without address:
+	// the first sync tops the first one up (a status write that keeps the recorded address) while the second allocates
+	r3 := mkUniverse("restart-prefer-topup+pending", ns12[:1], [][]metallbv1beta1.IPAddressPool{
+		{mkPool("a", []string{"10.0.0.0/31", "fc00::/127"}, nil)},
+		{mkPool("a", []string{"10.0.0.0/31"}, nil)},
+	}, slots3, restartVs, map[int][]int{0: {4}, 1: {0, 4}, 2: {0}})
+	r3.Preload = []preSvc{{0, 4, []string{"10.0.0.0"}, "a"}, {1, 0, nil, ""}}
+	us = append(us, r3)
+
 	us = append(us, mkUniverse("reconf", ns12, reLayouts, []slotT{{"ns1", "s1"}, {"ns1", "s2"}, {"ns2", "s3"}}, reVs, map[int][]int{2: {0, 2}}))
 	return us
 }
